@@ -177,6 +177,20 @@ Proof.
   - vm_compute. repeat split; reflexivity.
 Qed.
 
+(* REFUTED without the premise on nested variables (the recorded finding C07-nested-variable-usage, as a theorem about
+   the faithful model): a String variable written inside a list literal at an Int position is delivered as it is --
+   the dictionary the resolver receives is NOT of the declared type.  The engine's validation accepts such documents
+   (rule 5.8.5 is applied to directly used variables only), so this is what the real engine does:
+   query ($w: String) { f(box: {tags: [$w]}) } with {"w": "abc"}. *)
+Example C05_nested_variable_usage_refuted :
+  let ads := [{| in_name := "box"; in_type := TNonNull (TNamed "Box"); in_default := None |}] in
+  let anodes := [{| a_name := "box"; a_value := LObj (1,1)%Z [("tags", LList (1,2)%Z [LVar (1,3)%Z "w"])]; a_loc := (1,1)%Z |}] in
+  let vs := [("w", PStr "abc")] in
+  coerce_arguments_aux t_schema 5 ads (0,0)%Z anodes vs = Ok ([("box", PDict [("n", PInt 5); ("tags", PList [PStr "abc"])])], [])
+  /\ has_type t_schema t_leaf (PDict [("n", PInt 5); ("tags", PList [PStr "abc"])]) (TNonNull (TNamed "Box")) = false
+  /\ lit_vars_typed t_schema t_leaf 5 vs (TNonNull (TNamed "Box")) (LObj (1,1)%Z [("tags", LList (1,2)%Z [LVar (1,3)%Z "w"])]) = false.
+Proof. cbv zeta. vm_compute. repeat split; reflexivity. Qed.
+
 Print Assumptions C05_literal_result_is_typed.
 Print Assumptions C05_coerced_variables_are_typed.
 Print Assumptions C05_usage_rule_is_subtyping.
